@@ -78,7 +78,7 @@ func init() {
 	})
 }
 
-var c20Failing = []string{"exits-early", "exits-early-stderr", "closes-stderr", "bad-handshake", "bad-handshake-more", "silent"}
+var c20Failing = []string{"exits-early", "exits-early-stderr", "closes-stderr", "bad-handshake", "bad-handshake-more", "silent", "listener-gone", "listener-gone"}
 
 // runC20Failing: goroutines use one client whose plugin fails to start.
 func runC20Failing(r *h.Run, kind string) {
@@ -102,6 +102,10 @@ func runC20Failing(r *h.Run, kind string) {
 		sc.Steps = []h.ScriptStep{h.Out("this is not a handshake\n")}
 	case "bad-handshake-more":
 		sc.Steps = []h.ScriptStep{h.Out("usage: tool\n  -h help\n"), h.Err("tool: unknown invocation\n"), h.Out("more\n").After(time.Millisecond)}
+	case "listener-gone":
+		// a well-formed line for an address nobody listens on (the plugin closed
+		// its listener right after printing it): Start succeeds, every connect fails
+		sc.Steps = []h.ScriptStep{h.Out("1|1|unix|/tmp/listener-gone.sock|" + c.Proto + "|\n")}
 	}
 	r.InstallScript(c.Path, sc)
 	cl := r.NewClient(c)
